@@ -259,6 +259,16 @@ func (eng *Engine) initExterns() {
 		tb(x, strNote)
 		k(st, UF(SI, "str.itoa", args[0].(Term)))
 	}
+	fmtInt := func(x *Exec, st *State, cc *ssa.CallCommon, fn *ssa.Function, args []Val, resT types.Type, k func(*State, Val)) {
+		tb(x, strNote)
+		if b, ok := litVal(args[1].(Term)); ok && b.IsInt64() && b.Int64() == 10 {
+			k(st, UF(SI, "str.itoa", args[0].(Term))) // base 10: the same text strconv.Itoa produces for this value
+			return
+		}
+		k(st, UF(SI, "str.formatint", args[0].(Term), args[1].(Term)))
+	}
+	E["strconv.FormatUint"] = fmtInt
+	E["strconv.FormatInt"] = fmtInt
 	E["strings.Contains"] = func(x *Exec, st *State, cc *ssa.CallCommon, fn *ssa.Function, args []Val, resT types.Type, k func(*State, Val)) {
 		tb(x, strNote)
 		k(st, UF(SB, "str.contains", args[0].(Term), args[1].(Term)))
